@@ -246,9 +246,11 @@ impl<A: LoadableAsset + SeekableAsset> TapeImpl for Tap<A> {
     }
 
     fn stop(&mut self) {
-        let state = self.state;
-        self.prev_state = state;
-        self.state = TapeState::Stop;
+        // Stopping already stopped tape must not forget the position to resume from
+        if self.state != TapeState::Stop {
+            self.prev_state = self.state;
+            self.state = TapeState::Stop;
+        }
     }
 
     fn play(&mut self) {
@@ -270,6 +272,11 @@ impl<A: LoadableAsset + SeekableAsset> TapeImpl for Tap<A> {
         self.delay = 0;
         self.asset.seek(SeekFrom::Start(0))?;
         self.tape_ended = false;
+        // Nothing of the old position may survive: next play starts with the first block
+        self.prev_state = TapeState::Stop;
+        if self.state != TapeState::Stop {
+            self.state = TapeState::Play;
+        }
         Ok(())
     }
 }
